@@ -121,7 +121,7 @@ def judge(d, name, rows, budget, chunks=1, workers=8, timeout=2400, profile=Fals
     """TLC on MIRTrace.tla; returns ({id: merged verdict}, TlcResult)"""
     tr = os.path.join(d, f"{name}-mirtrace.ndjson")
     write_ndjson(tr, rows)
-    res = tlc("MIRTrace", "MIRTrace.cfg", env={"TRACE": tr, "BUDGET": budget, "CHUNKS": chunks, "PROFILE": "1" if profile else "0"},
+    res = tlc("MIRTrace", "MIRTrace.cfg", env={"TRACE": tr, "NROWS": len(rows), "BUDGET": budget, "CHUNKS": chunks, "PROFILE": "1" if profile else "0"},
               workers=workers, timeout=timeout, tag=f"c02mir-{name}", extra=["-continue"], xmx="12g")
     parts = {}
     try:
